@@ -52,66 +52,85 @@ def c08(tier, seed):
         S.append(Spec("c08_dec_commitment_l%d" % n, "c08::dec_commitment::<%d>()" % n, 52, shape=dict(entry="Commitment::from_bytes", len=n), replay="dec"))
 
     th = tier == "thorough"
-    # operations (generator table + programmed message scalars; domain/challenge hashing real)
-    for sk_, cs in suites(tier, seed, "c08v"):
-        for L in ([0, 1, 2, 3] if th else [0, 1, 2]):
-            S.append(Spec("c08_op_verify_%s_L%d" % (sk_, L), "c08::op_verify::<%s, %d>()" % (cs, L), 700, "S3",
-                          shape=dict(entry="verify", suite=sk_, L=L), replay="op"))
-    pv = [(0, 0, 0), (1, 1, 1), (0, 2, 2), (2, 1, 1), (1, 2, 1), (0, 1, 0), (1, 0, 1)]
+    # operations: shapes (counts, None/empty/non-empty, index-list shape) are concrete per query; payload
+    # values, single indexes and declared counts are symbolic.  Generator table + programmed message
+    # scalars (stub set S3); domain / challenge hashing real.
+    G = "A"
+    UW = 100
+
+    def op(name, call, stubs, shape):
+        S.append(Spec("c08_op_" + name, "c08::" + call, UW, stubs, G, shape=shape, replay="op"))
+
+    vs = [(0, 0, "true"), (0, 1, "false"), (1, 2, "false"), (2, 0, "false")]
     if th:
-        pv += [(2, 2, 2), (3, 1, 1), (0, 3, 3), (1, 3, 2)]
-    for sk_, cs in (suites(tier, seed, "c08pv") if th else one_suite(tier, seed, "c08pv")):
-        for (U, R, NM) in pv:
-            S.append(Spec("c08_op_proof_verify_%s_U%d_R%d_N%d" % (sk_, U, R, NM),
-                          "c08::op_proof_verify::<%s, %d, %d, %d, %d>()" % (cs, U, 272 + 32 * U, R, NM), 700, "S3",
-                          shape=dict(entry="proof_verify", suite=sk_, U=U, R=R, msgs=NM), replay="op"))
-    bpv = [(0, 0, 0), (1, 0, 0), (1, 1, 0), (1, 0, 1), (2, 1, 1), (0, 1, 1)]
+        vs = [(L, H, "false") for L in range(0, 4) for H in range(0, 3)] + [(0, 0, "true"), (0, 2, "true")]
+    for (L, H, MN) in vs:
+        for sk_, cs in (suites(tier, seed, "v") if th else one_suite(tier, seed, "c08v%d%d" % (L, H))):
+            op("verify_%s_L%d_h%d_%s" % (sk_, L, H, MN[0]), "op_verify::<%s, %d, %d, %s>()" % (cs, L, H, MN), "S3",
+               dict(entry="verify", suite=sk_, L=L, header_shape=H, msgs_none=MN))
+    # (U, index shape, #messages, header shape, ph shape)
+    pv = [(0, 0, 0, 0, 0), (1, 1, 1, 2, 2), (0, 2, 2, 1, 0), (2, 1, 1, 0, 1), (1, 3, 2, 0, 0), (0, 1, 0, 0, 0), (1, 0, 1, 0, 2), (1, 4, 2, 0, 0), (1, 5, 2, 0, 0)]
     if th:
-        bpv += [(2, 0, 0), (3, 1, 1), (2, 2, 1), (0, 2, 0), (0, 0, 2)]
-    for sk_, cs in (suites(tier, seed, "c08bpv") if th else one_suite(tier, seed, "c08bpv")):
-        for (U, R1, R2) in bpv:
-            S.append(Spec("c08_op_blind_proof_verify_%s_U%d_R%d_%d" % (sk_, U, R1, R2),
-                          "c08::op_blind_proof_verify::<%s, %d, %d, %d, %d>()" % (cs, U, 272 + 32 * U, R1, R2), 900, "S3",
-                          shape=dict(entry="blind_proof_verify", suite=sk_, U=U, R1=R1, R2=R2), replay="op"))
-    bsl = [1, 47, 48, 79, 80, 81, 111, 112, 113, 144]
+        pv += [(2, 2, 2, 2, 2), (3, 1, 1, 1, 1), (0, 6, 2, 0, 0), (1, 6, 2, 0, 0), (2, 0, 0, 0, 0), (3, 0, 0, 2, 2), (2, 5, 2, 0, 0), (2, 4, 1, 0, 0)]
+    for (U, ISH, NM, H, PH) in pv:
+        for sk_, cs in (suites(tier, seed, "pv") if th else one_suite(tier, seed, "c08pv%d%d%d" % (U, ISH, NM))):
+            op("proof_verify_%s_U%d_i%d_N%d_h%d_p%d" % (sk_, U, ISH, NM, H, PH),
+               "op_proof_verify::<%s, %d, %d, %d, %d, %d, %d>()" % (cs, U, 272 + 32 * U, ISH, NM, H, PH), "S3",
+               dict(entry="proof_verify", suite=sk_, U=U, index_shape=ISH, msgs=NM, header_shape=H, ph_shape=PH))
+    # blind_proof_verify arithmetic with ANY L
+    ar = [(0, 0, 0, "false"), (1, 0, 0, "false"), (1, 1, 0, "false"), (1, 0, 1, "false"), (2, 1, 1, "false"), (0, 1, 1, "true"), (1, 0, 0, "true")]
     if th:
-        bsl = sorted(set(bsl + [2, 31, 32, 49, 96, 143, 145, 176, 177]))
-    for sk_, cs in one_suite(tier, seed, "c08bs"):
-        for n in bsl:
-            for L in ([0, 1] if th else [pick(seed, "bsL%d" % n, [0, 1], 1)[0]]):
-                S.append(Spec("c08_op_blind_sign_%s_len%d_L%d" % (sk_, n, L), "c08::op_blind_sign::<%s, %d, %d>()" % (cs, n, L), 900, "S4",
-                              shape=dict(entry="blind_sign", suite=sk_, commitment_len=n, L=L), replay="op"))
-    for sk_, cs in one_suite(tier, seed, "c08vbs"):
-        for (L, M) in [(0, 0), (1, 0), (0, 1), (1, 1)] + ([(2, 1), (1, 2), (2, 2)] if th else []):
-            S.append(Spec("c08_op_verify_blind_sign_%s_L%d_M%d" % (sk_, L, M), "c08::op_verify_blind_sign::<%s, %d, %d>()" % (cs, L, M), 900, "S3",
-                          shape=dict(entry="verify_blind_sign", suite=sk_, L=L, M=M), replay="op"))
-    for sk_, cs in one_suite(tier, seed, "c08dc"):
-        for n in ([1, 47, 48, 79, 80, 112, 144] + ([111, 113, 143, 145, 176] if th else [])):
-            for G in ([0, 1, 2, 3] if th else pick(seed, "dcG%d" % n, [0, 1, 2, 3], 2)):
-                S.append(Spec("c08_op_deser_commit_%s_len%d_G%d" % (sk_, n, G), "c08::op_deser_commit::<%s, %d, %d>()" % (cs, n, G), 400, "none",
-                              shape=dict(entry="deserialize_and_validate_commit", suite=sk_, len=n, blind_generators=G), replay="op"))
-    for sk_, cs in one_suite(tier, seed, "c08pg"):
-        for sl in [0, 79, 81]:
-            S.append(Spec("c08_op_proof_gen_%s_sig%d" % (sk_, sl), "c08::op_proof_gen::<%s, %d, 1, 1>()" % (cs, sl), 700, "S3",
-                          shape=dict(entry="proof_gen", suite=sk_, sig_len=sl, L=1, R=1), replay="op"))
-        for (L, R) in [(0, 0), (0, 1), (1, 0), (1, 1), (1, 2), (2, 1), (2, 3)] + ([(2, 2), (3, 2), (3, 4)] if th else []):
-            S.append(Spec("c08_op_proof_gen_%s_L%d_R%d" % (sk_, L, R), "c08::op_proof_gen::<%s, 80, %d, %d>()" % (cs, L, R), 700, "S3",
-                          shape=dict(entry="proof_gen", suite=sk_, sig_len=80, L=L, R=R), replay="op"))
-    for sk_, cs in one_suite(tier, seed, "c08bpg"):
-        for (L, M, R1, R2) in [(0, 0, 0, 0), (1, 0, 1, 0), (0, 1, 0, 1), (1, 1, 1, 1), (1, 1, 2, 0), (1, 1, 0, 2)] + ([(2, 1, 1, 1), (1, 2, 1, 2), (0, 0, 1, 1)] if th else []):
-            S.append(Spec("c08_op_blind_proof_gen_%s_L%d_M%d_R%d_%d" % (sk_, L, M, R1, R2),
-                          "c08::op_blind_proof_gen::<%s, %d, %d, %d, %d>()" % (cs, L, M, R1, R2), 900, "S3",
-                          shape=dict(entry="blind_proof_gen", suite=sk_, L=L, M=M, R1=R1, R2=R2), replay="op"))
+        ar += [(0, 0, 0, "true"), (3, 0, 0, "false"), (2, 2, 2, "false"), (0, 2, 0, "false"), (0, 0, 2, "false")]
+    for (U, R1, R2, LN) in ar:
+        for sk_, cs in (suites(tier, seed, "ar") if th else one_suite(tier, seed, "c08ar%d%d%d" % (U, R1, R2))):
+            op("bpv_arith_%s_U%d_R%d_%d_%s" % (sk_, U, R1, R2, LN[0]),
+               "op_bpv_arith::<%s, %d, %d, %d, %d, %s>()" % (cs, U, 272 + 32 * U, R1, R2, LN), "PP",
+               dict(entry="blind_proof_verify", part="arithmetic before prepare_parameters", suite=sk_, U=U, R1=R1, R2=R2, L=("None" if LN == "true" else "any usize")))
+    # blind_proof_verify index handling with concrete L: (U, L, shape1, shape2, n1, n2)
+    bpv = [(1, 0, 0, 0, 0, 0), (1, 0, 0, 1, 0, 1), (2, 1, 1, 1, 1, 1), (2, 1, 1, 0, 1, 0), (1, 1, 0, 5, 0, 2)]
+    if th:
+        bpv += [(3, 1, 2, 1, 2, 1), (2, 0, 0, 2, 0, 2), (2, 2, 3, 0, 2, 0), (1, 0, 0, 4, 0, 2), (3, 2, 1, 1, 1, 1)]
+    for (U, LC, I1, I2, N1, N2) in bpv:
+        for sk_, cs in (suites(tier, seed, "bpv") if th else one_suite(tier, seed, "c08bpv%d%d%d" % (U, I1, I2))):
+            op("blind_proof_verify_%s_U%d_L%d_i%d_%d_n%d_%d" % (sk_, U, LC, I1, I2, N1, N2),
+               "op_blind_proof_verify::<%s, %d, %d, %d, %d, %d, %d, %d>()" % (cs, U, 272 + 32 * U, LC, I1, I2, N1, N2), "S3",
+               dict(entry="blind_proof_verify", part="index handling", suite=sk_, U=U, L=LC, index_shapes=[I1, I2], msgs=[N1, N2]))
+    bsl = [1, 47, 48, 79, 80, 111, 112, 113, 144]
+    if th:
+        bsl = sorted(set(bsl + [2, 31, 32, 49, 81, 96, 143, 145, 176, 177]))
+    for n in bsl:
+        for L in ([0, 1] if th else [pick(seed, "bsL%d" % n, [0, 1], 1)[0]]):
+            for sk_, cs in one_suite(tier, seed, "c08bs%d" % n):
+                op("blind_sign_%s_len%d_L%d" % (sk_, n, L), "op_blind_sign::<%s, %d, %d>()" % (cs, n, L), "S3",
+                   dict(entry="blind_sign", suite=sk_, commitment_len=n, L=L))
+    for (L, M, UB) in [(0, 0, "false"), (1, 0, "true"), (0, 1, "true"), (1, 1, "false")] + ([(2, 1, "true"), (1, 2, "true"), (2, 2, "false"), (0, 0, "true")] if th else []):
+        for sk_, cs in one_suite(tier, seed, "c08vbs%d%d" % (L, M)):
+            op("verify_blind_sign_%s_L%d_M%d_%s" % (sk_, L, M, UB[0]), "op_verify_blind_sign::<%s, %d, %d, %s>()" % (cs, L, M, UB), "S3",
+               dict(entry="verify_blind_sign", suite=sk_, L=L, M=M, blind_factor=UB))
+    for n in ([1, 47, 48, 79, 80, 112, 144] + ([111, 113, 143, 145, 176] if th else [])):
+        for Gn in ([0, 1, 2, 3] if th else pick(seed, "dcG%d" % n, [0, 1, 2, 3], 2)):
+            for sk_, cs in one_suite(tier, seed, "c08dc%d" % n):
+                op("deser_commit_%s_len%d_G%d" % (sk_, n, Gn), "op_deser_commit::<%s, %d, %d>()" % (cs, n, Gn), "none",
+                   dict(entry="deserialize_and_validate_commit", suite=sk_, len=n, blind_generators=Gn))
+    for (L, ISH) in [(0, 0), (0, 1), (1, 0), (1, 1), (2, 2), (2, 3), (2, 4), (2, 5)] + ([(3, 2), (3, 1), (2, 6), (2, 0), (3, 0), (1, 5)] if th else []):
+        for sk_, cs in one_suite(tier, seed, "c08pg%d%d" % (L, ISH)):
+            op("proof_gen_%s_L%d_i%d" % (sk_, L, ISH), "op_proof_gen::<%s, 80, %d, %d>()" % (cs, L, ISH), "S3",
+               dict(entry="proof_gen", suite=sk_, sig_len=80, L=L, index_shape=ISH))
+    for (L, M, I1, I2) in [(0, 0, 0, 0), (1, 0, 1, 0), (0, 1, 0, 1), (1, 1, 1, 1), (2, 1, 3, 0), (1, 2, 0, 5)] + ([(2, 1, 1, 1), (1, 2, 1, 2), (0, 0, 1, 1), (2, 2, 4, 2)] if th else []):
+        for sk_, cs in one_suite(tier, seed, "c08bpg%d%d" % (L, M)):
+            op("blind_proof_gen_%s_L%d_M%d_i%d_%d" % (sk_, L, M, I1, I2),
+               "op_blind_proof_gen::<%s, %d, %d, %d, %d>()" % (cs, L, M, I1, I2), "S3",
+               dict(entry="blind_proof_gen", suite=sk_, L=L, M=M, index_shapes=[I1, I2]))
     for sk_, cs in one_suite(tier, seed, "c08up"):
         for N in ([0, 1, 2, 3] if th else [0, 1, 2]):
-            S.append(Spec("c08_op_update_%s_n%d" % (sk_, N), "c08::op_update::<%s, %d, false>()" % (cs, N), 400, "S3",
-                          shape=dict(entry="update_signature", suite=sk_, n=N, update_index="any usize"), replay="op"))
-        S.append(Spec("c08_op_update_%s_nmax" % sk_, "c08::op_update::<%s, 0, true>()" % cs, 400, "S3",
-                      shape=dict(entry="update_signature", suite=sk_, n="usize::MAX", update_index="any usize"), replay="op"))
+            op("update_%s_n%d" % (sk_, N), "op_update::<%s, %d, false>()" % (cs, N), "S3",
+               dict(entry="update_signature", suite=sk_, n=N, update_index="any usize"))
+        op("update_%s_nmax" % sk_, "op_update::<%s, 0, true>()" % cs, "S3",
+           dict(entry="update_signature", suite=sk_, n="usize::MAX", update_index="any usize"))
     for sk_, cs in suites(tier, seed, "c08g"):
         for N in ([0, 1, 2, 3] if th else [0, 1, 2]):
-            S.append(Spec("c08_op_generators_%s_n%d" % (sk_, N), "c08::op_generators::<%s, %d>()" % (cs, N), 400, "none",
-                          shape=dict(entry="Generators::create", suite=sk_, count=N), replay="op"))
+            op("generators_%s_n%d" % (sk_, N), "op_generators::<%s, %d>()" % (cs, N), "none",
+               dict(entry="Generators::create", suite=sk_, count=N))
     return S
 
 
